@@ -23,7 +23,8 @@ RULE = ("cases = (line ending out of 5, list of <=30 ops: add_writer(k) (new "
         "non-ASCII text and trailing blanks, move/comment/annotate calls, "
         "flush, teardown (after which writers may be re-added), the line ending "
         "changed on the live builder) over a pool "
-        "of 8 writers of 7 kinds (custom recorder, path file x2, BytesIO, "
+        "of 10 writers of 9 kinds (custom recorder, path file x2, BytesIO, two "
+        "NamedTemporaryFile objects - one binary, one text -, "
         "StringIO, caller-opened text file, ConsoleWriter on a fake terminal, "
         "LogWriter with a capturing handler), optionally plus the writers the "
         "builder creates itself from output=/print_lines=, optionally leaving "
@@ -47,7 +48,10 @@ LEVEL_TEXT = ("Generated histories over a mixed writer pool compared with a "
               "reference model after every emit, flush and teardown; "
               "exploration.")
 
-KINDS = ["recorder", "path", "bytesio", "stringio", "textfile", "path", "console", "log"]
+KINDS = ["recorder", "path", "bytesio", "stringio", "textfile", "path", "console", "log",
+         # two objects of ONE Python class, one binary and one text
+         # (tempfile.NamedTemporaryFile "w+b" / "w+")
+         "tmp_bin", "tmp_text"]
 LEFTOVER = b"; leftover of an earlier, longer program\n" * 40
 CFG_OUTPUTS = [None, None, "cfg_path", "cfg_bytesio", "cfg_stringio"]
 
@@ -164,6 +168,17 @@ class Pool:
                 lg.propagate = False
                 w.set_level("info")
                 self.readers.append(lambda w=w: w.got)
+            elif k in ("tmp_bin", "tmp_text"):
+                tf = (tempfile.NamedTemporaryFile("w+b", dir=tmp, delete=False) if k == "tmp_bin"
+                      else tempfile.NamedTemporaryFile("w+", dir=tmp, delete=False,
+                                                       encoding="utf-8", newline=""))
+                self.tmpfiles = getattr(self, "tmpfiles", []) + [tf]
+                w = spy(i, FileWriter)(tf)
+
+                def rd(tf=tf):
+                    tf.flush()
+                    return open(tf.name, "rb").read()
+                self.readers.append(rd)
             elif k == "textfile":
                 tpath = os.path.join(tmp, "text.gcode")
                 fh = open(tpath, "w", encoding="utf-8", newline="")
@@ -177,6 +192,11 @@ class Pool:
             self.fh.close()
         except Exception:
             pass
+        for tf in getattr(self, "tmpfiles", []):
+            try:
+                tf.close()
+            except Exception:
+                pass
         self.logger.removeHandler(self.log_handler)
         self.logger.setLevel(self.logger_state[0])
         self.logger.propagate = self.logger_state[1]
